@@ -30,7 +30,8 @@ from elementpath.namespaces import XML_ID, XML_LANG, XML_NAMESPACE
 from elementpath.helpers import Patterns, is_idrefs, is_xml_codepoint, round_number
 from elementpath.datatypes import DateTime10, DateTime, Date10, Date, \
     Float, DoubleProxy, Time, Duration, DayTimeDuration, YearMonthDuration, \
-    UntypedAtomic, AnyURI, QName, NCName, Id, ArithmeticProxy, NumericProxy, AbstractDateTime
+    UntypedAtomic, AnyURI, QName, NCName, Id, ArithmeticProxy, NumericProxy, AbstractDateTime, \
+    AbstractBinary
 from elementpath.aliases import AtomicType, NumericType
 from elementpath.namespaces import get_namespace, split_expanded_name
 from elementpath.sequences import xlist
@@ -507,6 +508,9 @@ def evaluate__max_min_functions(self: XPathFunction, context: ta.ContextType = N
             if any(not isinstance(x, AbstractDateTime) or x.name.startswith('g') or
                    not isinstance(x, type(values[0])) and not isinstance(values[0], type(x))
                    for x in values):
+                raise self.error('FORG0006', "values are not of a single ordered type")
+        elif any(isinstance(x, AbstractBinary) for x in values):
+            if any(type(x) is not type(values[0]) for x in values):
                 raise self.error('FORG0006', "values are not of a single ordered type")
         return aggregate_func(values)  # type: ignore[type-var]
 
